@@ -82,6 +82,14 @@ impl Operation for ModulationOp {
     type Error = AUTDDriverError;
 
     fn pack(&mut self, _: &Device, tx: &mut [u8]) -> Result<usize, AUTDDriverError> {
+        // The whole buffer is known up front: refuse it before the first frame is built, not after
+        // the part that fits has already been written to the device.
+        if !(MOD_BUF_SIZE_MIN..=MOD_BUF_SIZE_MAX).contains(&self.modulation.len()) {
+            return Err(AUTDDriverError::ModulationSizeOutOfRange(
+                self.modulation.len(),
+            ));
+        }
+
         let is_first = self.sent == 0;
 
         let offset = if is_first {
@@ -101,9 +109,6 @@ impl Operation for ModulationOp {
             .copy_from_slice(&self.modulation[self.sent..self.sent + send_num]);
 
         self.sent += send_num;
-        if self.sent > MOD_BUF_SIZE_MAX {
-            return Err(AUTDDriverError::ModulationSizeOutOfRange(self.sent));
-        }
 
         let mut flag = if self.segment == Segment::S1 {
             ModulationControlFlags::SEGMENT
@@ -112,9 +117,6 @@ impl Operation for ModulationOp {
         };
 
         if self.modulation.len() == self.sent {
-            if self.sent < MOD_BUF_SIZE_MIN {
-                return Err(AUTDDriverError::ModulationSizeOutOfRange(self.sent));
-            }
             self.is_done = true;
             flag.set(ModulationControlFlags::END, true);
             flag.set(
